@@ -382,9 +382,11 @@ def ingPlan (c : Cfg) (s : St) : Except Outcome IngPlan :=
       if bot ≠ [] ∧ staleHits s (rangeOf bot) then .error .nothing
       else .ok ⟨top, rest, left, right, bot⟩
 
-def addStale (s : St) (bot : List Src) : List (Bytes × Bytes) :=
+/-- `State.Delete` removes every registered range equal to `ThisRange`; `NextRange` (the bottom
+    tables' range) therefore leaks only when it differs from the top tables' range -/
+def addStale (s : St) (top bot : List Src) : List (Bytes × Bytes) :=
   match rangeOf bot with
-  | some r => r :: s.stale
+  | some r => if rangeOf top = some r then s.stale else r :: s.stale
   | none => s.stale
 
 /-- ingest-keep: merge the first `batch` tables of the shard (and the main tables the plan
@@ -397,7 +399,7 @@ def keep (c : Cfg) (s : St) : St × Outcome :=
     let ing' := match c.ingestOrder with
       | .recency => p.rest ++ [merged]
       | .minKeyDesc => merged :: p.rest
-    ({ s with ing := ing', stale := addStale s p.bot, mainDead := p.bot ++ s.mainDead }, .done)
+    ({ s with ing := ing', stale := addStale s p.top p.bot, mainDead := p.bot ++ s.mainDead }, .done)
 
 /-- ingest-drain: merge them into one new main table that replaces the bottom tables -/
 def drain (c : Cfg) (s : St) : St × Outcome :=
@@ -407,7 +409,7 @@ def drain (c : Cfg) (s : St) : St × Outcome :=
     let merged := mergeTables c (topOrder c p.top ++ [p.bot.flatten])
     ({ s with ing := p.rest,
               main := sortStable minLt (s.main.take p.left ++ s.main.drop p.right ++ [merged]),
-              stale := addStale s p.bot,
+              stale := addStale s p.top p.bot,
               mainDead := p.bot.foldl (fun d t => eraseOne t d) s.mainDead }, .done)
 
 /-- close + open: every WAL segment becomes a memtable again (`recovery`; an empty arena still has
